@@ -1199,6 +1199,22 @@ def _apply_rolling(
 
 
 @nb.njit(nogil=True, fastmath=False, cache=True)
+def _compensated_add(total, comp, x):
+    """
+    total + x, with the bits that addition rounds away added to comp (Neumaier's variant
+    of Kahan summation): as long as nothing overflows, new total + new comp equals
+    total + comp + x up to the rounding of comp itself.
+    """
+    new_total = total + x
+    if np.isfinite(new_total):
+        if abs(total) >= abs(x):
+            comp += (total - new_total) + x
+        else:
+            comp += (x - new_total) + total
+    return new_total, comp
+
+
+@nb.njit(nogil=True, fastmath=False, cache=True)
 def _rolling_sum_or_mean_1d(
     group_key: np.ndarray,
     values: np.ndarray,
@@ -1268,31 +1284,31 @@ def _rolling_sum_or_mean_1d(
             if group_full:
                 old_val = group_buffers[key, pos]
                 if not is_null(old_val):
-                    total = group_sums[key] - old_val
-                    if not np.isfinite(total):
-                        pass  # infinities have no low-order bits to keep
-                    elif abs(group_sums[key]) >= abs(old_val):
-                        group_comp[key] += (group_sums[key] - total) - old_val
-                    else:
-                        group_comp[key] += (-old_val - total) + group_sums[key]
-                    group_sums[key] = total
+                    total, comp = _compensated_add(
+                        group_sums[key], group_comp[key], -old_val
+                    )
                     group_non_null[key] -= 1
                     if group_non_null[key] == 0:
                         # nothing left in the window: start afresh
-                        group_sums[key] = 0.0
-                        group_comp[key] = 0.0
+                        total, comp = 0.0, 0.0
+                    elif not np.isfinite(total):
+                        # an infinity (or an overflow) is in the window or has just left it:
+                        # add up what stays in the buffer
+                        total, comp = 0.0, 0.0
+                        for j in range(window):
+                            if j != pos and not is_null(group_buffers[key, j]):
+                                total, comp = _compensated_add(
+                                    total, comp, group_buffers[key, j]
+                                )
+                    group_sums[key] = total
+                    group_comp[key] = comp
 
             # Add new value
             if not val_is_null:
                 group_non_null[key] += 1
-                total = group_sums[key] + val
-                if not np.isfinite(total):
-                    pass
-                elif abs(group_sums[key]) >= abs(val):
-                    group_comp[key] += (group_sums[key] - total) + val
-                else:
-                    group_comp[key] += (val - total) + group_sums[key]
-                group_sums[key] = total
+                group_sums[key], group_comp[key] = _compensated_add(
+                    group_sums[key], group_comp[key], val
+                )
 
             group_buffers[key, pos] = val
 
